@@ -17,6 +17,8 @@ Record case := mkcase {
   c_cpings : list Z;             (* ns: pings the client sent *)
   c_pongs_back : Z;              (* pongs the relay sent in answer to the client's pings *)
   c_cclose : option Z;           (* ns: the client sent a close frame (and kept the TCP connection open) *)
+  c_evict : option Z;            (* ns: the hub evicted this client as a slow reader *)
+  c_partner_closed : bool;       (* the partner (1 h token, possibly of the same booking) lost its connection during the watch *)
   watch_until : Z;               (* ns: the socket was watched until then *)
   c_last_from : Z;               (* ns: the partner last received a message FROM this client at (0 = never) *)
   c_last_to : Z;                 (* ns: this client last received a message at (0 = never) *)
@@ -47,7 +49,8 @@ Definition timeline (t : Z) (c : case) (h : Z) : list (ev * Z) :=
   merge_in EDataOut (c_data c)
     (merge_in EPongUnsolicited (c_upongs c)
        (merge_in EClientPing (c_cpings c)
-          (match c_cclose c with Some x => insert_ev (EClientClose, x) rounds | None => rounds end))).
+          (match c_evict c with Some x => insert_ev (EEvict, x) | None => fun l => l end
+             (match c_cclose c with Some x => insert_ev (EClientClose, x) rounds | None => rounds end)))).
 
 Definition predicted_close (t f : Z) (c : case) (h : Z) : option Z :=
   closed_at (run (start t f) (timeline t c h) h).
@@ -57,9 +60,9 @@ Definition predicted_close (t f : Z) (c : case) (h : Z) : option Z :=
    C06_no_early_close, so that the theorem speaks about exactly these runs *)
 Definition timely_ok (c : case) : bool :=
   let h := watch_until c + late_tol in
-  match c_pongs c, c_cclose c with
-  | true, None => timely (t_hi c + ping_period) None (timeline (t_hi c) c h ++ [(EDataIn, h)])
-  | _, _ => true
+  match c_pongs c, c_cclose c, c_evict c with
+  | true, None, None => timely (t_hi c + ping_period) None (timeline (t_hi c) c h ++ [(EDataIn, h)])
+  | _, _, _ => true
   end.
 
 (* every ping the client sent while the model has the connection open is answered with a pong
@@ -72,7 +75,11 @@ Definition pong_ok (c : case) (f_lo : Z) : bool :=
 Definition relay_ok (c : case) (f_hi : Z) : bool :=
   let h := watch_until c + late_tol in
   match predicted_close (t_hi c) f_hi c h with
-  | Some b => (c_last_from c <=? b + late_tol) && (c_last_to c <=? b + late_tol)
+  | Some b =>
+      (* an evicted reader is out of the fan-out at once, but its own reader goes on relaying what it
+         sends until the socket is closed: by the expiry, or when its blocked write gives up *)
+      let from_bound := match c_evict c with Some x => Z.min f_hi (x + write_wait) | None => b end in
+      (c_last_from c <=? from_bound + late_tol) && (c_last_to c <=? b + late_tol)
   | None => true
   end.
 
@@ -92,7 +99,7 @@ Definition case_ok (c : case) : bool :=
   if negb (floor_s (t_lo c) =? floor_s (t_hi c)) then true
   else match ws_accept (t_lo c) tok (c_others c), ws_accept (t_hi c) tok (c_others c) with
        | Refused _, Refused _ => negb (obs_accepted c) && (c_last_from c =? 0) && (c_last_to c =? 0)
-       | Accepted f_lo, Accepted f_hi => obs_accepted c && close_ok c f_lo f_hi && relay_ok c f_hi && timely_ok c && pong_ok c f_lo
+       | Accepted f_lo, Accepted f_hi => obs_accepted c && close_ok c f_lo f_hi && relay_ok c f_hi && timely_ok c && pong_ok c f_lo && negb (c_partner_closed c)
        | _, _ => false
        end.
 
